@@ -65,6 +65,10 @@ OBLIGATIONS = [
     "SkVerif.C16.union_accepts_always",
     "SkVerif.C16.union_rowwise",
     "SkVerif.C16.union_select_equivariant",
+    "SkVerif.C16.getDer_default_index_partial",
+    "SkVerif.C16.getDer_label_origin_witness",
+    "SkVerif.C16.meanAsStored_partial",
+    "SkVerif.C16.meanAsStored_int_witness",
     # about the ORIGINAL FeatureUnion._hstack (before /repo bec276b): the record of the repaired findings
     "SkVerif.C16.original_union_container_witness",
     "SkVerif.C16.original_union_default_labels_rowwise",
@@ -92,7 +96,9 @@ ASSUMPTIONS = [
 RULE = ("one case = one estimator configuration x one training panel x one apply batch x a list of variants "
         "(permutation, reversal, sub-selection, singles, repeats, empty, container at apply, container at fit) x the "
         "memory layout of every 3-D array handed over (C, Fortran, transposed view, non-contiguous slice; >= 2 "
-        "variables whenever the estimator takes them); "
+        "variables whenever the estimator takes them) x the cells of the nested container (per instance / column dtype "
+        "int64, int32, float32, float64 with a whole-number instance stored as integers anywhere in the batch and "
+        "moved first / last; time index of the cell Series default, 1..T, negative, gapped, offset); "
         "distinct by driver line; non-trivial = batch accepted, at least two distinct output rows and at least "
         "one variant; static cases enumerate every transform/predict/predict_proba of the anchored files")
 LEVEL_TEXT = ("Lean theorems (universally quantified over the per-instance function, members, aggregate, index "
@@ -207,7 +213,12 @@ def _registry():
     def add(key, kind, mk, params, src, uni=True, mv=False, ragged=False, refit=True, slow=False, minL=12, hs="-",
             bases=("N", "N", "A")):
         reg[key] = dict(kind=kind, mk=mk, params=params, src=src, uni=uni, mv=mv, ragged=ragged, refit=refit,
-                        slow=slow, minL=minL, hs=hs, bases=bases)
+                        slow=slow, minL=minL, hs=hs, bases=bases, bag=key in ("sax", "sfa"),
+                        # known findings the model reproduces (remove the flag when the fix lands):
+                        labelidx=key in ("dslope",),        # nested cells are read by LABEL (x[i] on the Series)
+                        inttrunc=key in ("slope",),         # statistics.mean truncates for integer-typed cells
+                        # a forecaster is fitted on each cell: there the time index IS data (gaps are rejected)
+                        tix=tuple(t for t in TIX if not (key == "fpe" and t == "even")))
 
     add("pad", T, lambda p: PaddingTransformer(**p), [{}, {"pad_length": 30}, {"pad_length": 26, "fill_value": -1}],
         (P + "padder.py", "PaddingTransformer"), uni=False, ragged=True)
@@ -343,9 +354,34 @@ def with_layout(arr, layout):
     return out
 
 
-def build(panel, base, idx=None, keepidx=False, layout="C"):
-    """panel -> nested DataFrame ("N", pd.Series cells) or 3-D array ("A", in the given memory layout);
-    idx selects rows by position"""
+DT = {"f8": "float64", "f4": "float32", "i8": "int64", "i4": "int32"}
+TIX = ("default", "one", "neg", "even", "off")
+
+
+def time_index(kind, n):
+    """index of a cell Series: default 0..n-1, 1..n, -n..-1, gapped even numbers, a window cut at label 100"""
+    if kind == "one":
+        return list(range(1, n + 1))
+    if kind == "neg":
+        return list(range(-n, 0))
+    if kind == "even":
+        return list(range(0, 2 * n, 2))
+    if kind == "off":
+        return list(range(100, 100 + n))
+    return list(range(n))
+
+
+def _cell_array(vals, code):
+    vals = [float(v) for v in vals]
+    if code in ("i8", "i4") and not all(v == int(v) for v in vals):
+        code = "f8"                                         # only whole numbers can be stored as integers
+    return np.array(vals, dtype=DT.get(code, "float64"))
+
+
+def build(panel, base, idx=None, keepidx=False, layout="C", dts=None, tix="default"):
+    """panel -> nested DataFrame ("N", pd.Series cells) or 3-D float array ("A", in the given memory layout) of
+    the same numbers; idx selects rows by position.  dts: per instance, per column dtype code of the nested cells
+    (the numbers do not change); tix: the time index carried by the nested cells"""
     if base == "A":
         arr = np.array([[list(map(float, s)) for s in inst] for inst in panel], dtype=float)
         if arr.ndim != 3:
@@ -354,7 +390,10 @@ def build(panel, base, idx=None, keepidx=False, layout="C"):
             arr = arr[list(idx)]
         return with_layout(arr, layout) if arr.size else arr
     ncol = len(panel[0]) if panel else 1
-    df = pd.DataFrame({"var_%d" % j: [pd.Series(list(map(float, inst[j]))) for inst in panel] for j in range(ncol)},
+    def cell(i, j):
+        code = dts[i][j] if dts is not None else "f8"
+        return pd.Series(_cell_array(panel[i][j], code), index=time_index(tix, len(panel[i][j])))
+    df = pd.DataFrame({"var_%d" % j: [cell(i, j) for i in range(len(panel))] for j in range(ncol)},
                       index=range(len(panel)))
     if idx is not None:
         df = df.iloc[list(idx)]
@@ -399,9 +438,12 @@ def _key(k):
     return _scalar(k)
 
 
+_SERIES_IS_BAG = [False]     # SAX / SFA return pd.Series(bag): the index holds the words; elsewhere it is a time index
+
+
 def _cell(v):
     if isinstance(v, pd.Series):
-        if len(v) and not (list(v.index) == list(range(len(v)))) and v.dtype != object:
+        if _SERIES_IS_BAG[0] and len(v) and not (list(v.index) == list(range(len(v)))) and v.dtype != object:
             items = sorted(((_key(k), _cell(x)) for k, x in v.items()))
             return ",".join("%s:%s" % kv for kv in items) or "e"
         return ",".join(_cell(x) for x in v.tolist()) or "e"
@@ -446,8 +488,14 @@ def parse_rows(s):
     return [] if s == "_" else s.split("|")
 
 
-def same_row(a, b):
-    return fuzzy_equal(a, b)
+def same_row(a, b, tol=1e-9):
+    return fuzzy_equal(a, b, tol)
+
+
+def case_tol(case):
+    """float32 cells are computed with in single precision by some estimators; the 3-D twin is float64"""
+    d = case.get("dts") or {}
+    return 2e-5 if any(c == "f4" for part in d.values() for inst in part for c in inst) else 1e-9
 
 
 # ----------------------------------------------------------------------------- real code: metamorphic observations
@@ -479,27 +527,35 @@ def meta_real(case):
     ent = registry()[case["est"]]
     base, keep, meth = case["base"], bool(case.get("keepidx")), case["meth"]
     lay = case.get("layout", "C")                           # memory layout of every 3-D array handed over in this case
+    dts, tix = case.get("dts") or {}, case.get("tix", "default")   # dtypes / time index of the nested cells
+    kwa = dict(layout=lay, dts=dts.get("xa"), tix=tix)
+    kwf = dict(layout=lay, dts=dts.get("xf"), tix=tix)
+    _SERIES_IS_BAG[0] = bool(ent.get("bag"))
     other = "A" if base == "N" else "N"
     xa, xf = case["xa"], case["xf"]
     y = _labels(case)
     with joblib.parallel_backend("threading"):
         try:
             est = ent["mk"](case["p"])
-            est.fit(build(xf, case.get("fitbase", base), layout=lay), y)
+            est.fit(build(xf, case.get("fitbase", base), **kwf), y)
         except Exception as e:
             return "fit=" + canon_err(e)
         apply = getattr(est, meth)
-        parts = ["fit=ok"]
-        b = _try_rows(lambda: apply(build(xa, base, layout=lay)))
+        parts = ["fit=ok", "tol=%g" % case_tol(case), "A=" + _fitted_attrs(est)]
+        b = _try_rows(lambda: apply(build(xa, base, **kwa)))
         parts.append("b=" + ("ok" if not b.startswith("E:") else b))
         parts.append("B=" + (b if not b.startswith("E:") else "_"))
         ties = []
         if meth == "predict" and _tie_by_rng(ent) and not b.startswith("E:"):
             try:
-                P = np.asarray(est.predict_proba(build(xa, base, layout=lay)))
+                P = np.asarray(est.predict_proba(build(xa, base, **kwa)))
                 ties = [i for i in range(P.shape[0]) if int((P[i] == P[i].max()).sum()) > 1]
             except Exception:
                 ties = []
+        if ent.get("inttrunc") and dts.get("xa"):
+            # rows of integer-typed instances: alone (or among integer-typed ones only) they are computed on an
+            # integer array and statistics.mean truncates; not predicted by the model (masked), oracle still sees them
+            ties = sorted(set(ties) | {i for i, inst in enumerate(dts["xa"]) if any(c in ("i8", "i4") for c in inst)})
         parts.append("t=" + (",".join(map(str, ties)) or "-"))
         if ent["hs"] != "-":                                # feature union: number of output columns per member
             try:
@@ -509,15 +565,19 @@ def meta_real(case):
                 parts.append("w=-")
         for k, v in enumerate(case["vars"]):
             if v[0] == "sel":
-                r = _try_rows(lambda: apply(build(xa, base, idx=v[1], keepidx=keep, layout=lay)))
+                r = _try_rows(lambda: apply(build(xa, base, idx=v[1], keepidx=keep, **kwa)))
             elif v[0] == "cont":
-                r = _try_rows(lambda: apply(build(xa, other, layout=lay)))
+                r = _try_rows(lambda: apply(build(xa, other, **kwa)))
             elif v[0] == "contfit":
                 def refit():
                     e2 = ent["mk"](case["p"])
-                    e2.fit(build(xf, other, layout=lay), y)
-                    return getattr(e2, meth)(build(xa, base, layout=lay))
+                    e2.fit(build(xf, other, **kwf), y)
+                    fa2.append(_fitted_attrs(e2))
+                    return getattr(e2, meth)(build(xa, base, **kwa))
+                fa2 = []
                 r = _try_rows(refit)
+                if fa2:
+                    parts.append("A%d=%s" % (k, fa2[0]))
             else:
                 raise ValueError(v)
             parts.append("r%d=%s" % (k, r))
@@ -533,6 +593,27 @@ def _tie_by_rng(ent):
         return any(k == "rng" for k, _, _ in st.get("flags", []))
     except Exception:
         return False
+
+
+FITTED_ATTRS = ("intervals_", "lower_", "pad_length_", "series_length", "input_shape_")
+
+
+def _fitted_attrs(est):
+    """fitted attributes that a caller can read, where exposed (compared between fits in the two containers)"""
+    out = []
+    for a in FITTED_ATTRS:
+        if hasattr(est, a):
+            try:
+                v = getattr(est, a)
+                if a == "input_shape_":
+                    v = list(v)[1:2]                        # (instances, columns[, time]) depends on the container
+                if a == "intervals_" and isinstance(v, list) and v and isinstance(v[0], np.ndarray) and v[0].ndim == 1 \
+                        and len(v[0]) != 2:
+                    v = [[int(x[0]), int(x[-1])] for x in v]     # IntervalSegmenter keeps whole index chunks
+                out.append("%s~%s" % (a.strip("_"), _cell(np.asarray(v, dtype=float)).replace(",", "~")))
+            except Exception:
+                out.append("%s~?" % a.strip("_"))
+    return "+".join(out) or "-"
 
 
 def _fields(out):
@@ -578,19 +659,26 @@ def meta_line(case):
             ops.append("cont")
         else:
             ops.append("contfit:%s:%s:%s" % ("T" if u else "F", k, dims(case["xf"])))
-    return "C16 meta %s %s %s:%s %s %s %s %s" % ("T" if u else "F", k, case["base"], dims(case["xa"]), f.get("t", "-"),
-                                                 f.get("w", "-"), f.get("B", "_"), " ".join(ops))
+    nx = bool(registry()[case["est"]].get("labelidx")) and case.get("tix", "default") != "default"
+    return "C16 meta %s %s %s:%s %s %s %s %s %s" % ("T" if u else "F", k, case["base"], dims(case["xa"]), f.get("t", "-"),
+                                                    f.get("w", "-"), "T" if nx else "F", f.get("B", "_"), " ".join(ops))
 
 
 def meta_oracle(case, out):
     """the property text on the real observations"""
     f = _fields(out)
     tag = "%s.%s" % (case["est"], case["meth"])
+    cix = "@cell-index" if case.get("tix", "default") != "default" else ""    # nested cells carry a non-default index
     if f.get("fit") != "ok":
-        return [("%s:valid-fit-rejected:%s" % (tag, f.get("fit")), out)] if case.get("valid") else []
+        return [("%s:valid-fit-rejected:%s%s" % (tag, f.get("fit"), cix), out)] if case.get("valid") else []
     if f["b"] != "ok":
-        return [("%s:valid-rejected:%s" % (tag, f["b"]), "batch rejected: " + f["b"])] if case.get("valid") else []
+        return [("%s:valid-rejected:%s%s" % (tag, f["b"], cix), "batch rejected: " + f["b"])] if case.get("valid") else []
+    dxa = (case.get("dts") or {}).get("xa")
+    def int_column(idx):                                    # a column in which every selected instance is stored as integers
+        return bool(dxa) and any(all(dxa[i][j] in ("i8", "i4") for i in idx) for j in range(len(dxa[0])))
+    tie_rng = case["meth"] == "predict" and _tie_by_rng(registry()[case["est"]])
     B = parse_rows(f["B"])
+    tol = case_tol(case)
     res = []
     if len(B) != len(case["xa"]):
         res.append((tag + ":row-count", "batch of %d instances gave %d rows" % (len(case["xa"]), len(B))))
@@ -605,33 +693,38 @@ def meta_oracle(case, out):
             if case.get("keepidx") and case["base"] == "N":
                 kind = "labelled-" + kind                   # the selected rows keep their index labels (X.iloc[idx])
             if r.startswith("E:"):
-                res.append(("%s:%s-rejected" % (tag, kind), "batch accepted but instances %s rejected: %s" % (idx, r)))
+                res.append(("%s:%s-rejected%s" % (tag, kind, cix), "batch accepted but instances %s rejected: %s" % (idx, r)))
                 continue
+            if idx and case["base"] == "N" and all(i < len(case["xa"]) for i in idx) and int_column(idx):
+                kind += "@int-cells"                        # every selected instance is stored as integers
             V = parse_rows(r)
             if len(V) != len(idx):
                 res.append(("%s:%s-row-count" % (tag, kind), "%d instances gave %d rows" % (len(idx), len(V))))
                 continue
             if any(i >= len(B) for i in idx):
                 continue
-            bad = [j for j, i in enumerate(idx) if not same_row(V[j], B[i])]
+            bad = [j for j, i in enumerate(idx) if not same_row(V[j], B[i], tol)]
             tied = set(int(x) for x in f.get("t", "-").split(",") if x not in ("-", ""))
-            if bad and all(idx[j] in tied for j in bad):
+            if bad and tie_rng and all(idx[j] in tied for j in bad):
                 j = bad[0]
                 res.append(("%s:tied-label-depends-on-position" % tag,
                             "instances %s: instance %d has tied class probabilities; alone / reordered it is labelled %s, in the batch %s"
                             % (idx, idx[j], V[j], B[idx[j]])))
             elif bad:
-                j = [x for x in bad if idx[x] not in tied][0]
+                j = ([x for x in bad if idx[x] not in tied] or bad)[0]
                 res.append(("%s:%s-rows-differ" % (tag, kind),
                             "instances %s: output row %d = %s but batch row %d = %s" % (idx, j, V[j][:120], idx[j], B[idx[j]][:120])))
         else:
             kind = "container-apply" if v[0] == "cont" else "container-fit"
             if r.startswith("E:"):
-                res.append(("%s:%s-rejected" % (tag, kind), r))
+                res.append(("%s:%s-rejected%s" % (tag, kind, cix), r))
                 continue
             V = parse_rows(r)
-            if len(V) != len(B) or any(not same_row(a, b) for a, b in zip(V, B)):
+            if len(V) != len(B) or any(not same_row(a, b, tol) for a, b in zip(V, B)):
                 res.append(("%s:%s-differs" % (tag, kind), "other container gave %s, batch gave %s" % (r[:150], f["B"][:150])))
+            if v[0] == "contfit" and ("A%d" % k) in f and f["A%d" % k] != f.get("A"):
+                res.append(("%s:container-fit-attributes-differ" % tag,
+                            "fitted on the other container: %s, fitted on this one: %s" % (f["A%d" % k][:150], f.get("A", "")[:150])))
     return res
 
 
@@ -1460,7 +1553,31 @@ def gen_instance(rng, c, L, cls, ragged=False):
     return inst
 
 
-def gen_meta(rng, key, tier, malformed=None, p=None, ragged=None, layout=None):
+# float32 cells only where the output is a closed-form function of the series: elsewhere (words, bins, tree
+# thresholds) single precision can flip a discretisation, which is rounding, not instance dependence
+F4_OK = {"pad", "trunc", "interp", "tab", "concat", "paa", "dwt", "dslope", "rowprim", "rowser", "coltrans",
+         "featunion", "featunion2", "iseg", "riseg", "slide"}
+
+
+def gen_dtypes(rng, panel, n_int, f4=True):
+    """per instance, per column dtype codes; `n_int` instances are rewritten to whole numbers (in place) and
+    stored as int64 / int32 in at least their first column; the others are float64 (mostly) or float32"""
+    n = len(panel)
+    ints = set(rng.sample(range(n), min(n_int, n)))
+    dts = []
+    for i, inst in enumerate(panel):
+        if i in ints:
+            for j in range(len(inst)):
+                inst[j] = [float(round(v)) for v in inst[j]]
+            code = rng.choice(["i8", "i8", "i4"])
+            dts.append([code if j == 0 or rng.random() < 0.5 else "f8" for j in range(len(inst))])
+        else:
+            code = rng.choice(["f8", "f8", "f8", "f4"]) if f4 else "f8"
+            dts.append([code if rng.random() < 0.8 else "f8" for _ in inst])
+    return dts, sorted(ints)
+
+
+def gen_meta(rng, key, tier, malformed=None, p=None, ragged=None, layout=None, tix=None, mixed=None):
     ent = registry()[key]
     p = rng.choice(ent["params"]) if p is None else p
     meth = rng.choice(METHS[ent["kind"]])
@@ -1516,7 +1633,30 @@ def gen_meta(rng, key, tier, malformed=None, p=None, ragged=None, layout=None):
         vs.append(["cont"])
         if ent["refit"]:
             vs.append(["contfit"])
+    # cells of the nested container: mixed dtypes (a whole-number instance stored as int, anywhere in the batch,
+    # and moved to the front / to the back by two extra selections) and the time index the cell Series carry
+    if mixed is None:
+        mixed = rng.random() < 0.5
+    if tix is None:
+        tix = rng.choice(["default", "default"] + list(TIX[1:]))
+    if tix not in ent["tix"]:
+        tix = "off"
+    dts = None
+    if mixed:
+        da, ints = gen_dtypes(rng, xa, rng.choice([1, 1, 2]), key in F4_OK)
+        df_, _ = gen_dtypes(rng, xf, rng.choice([0, 1, 2]), key in F4_OK)
+        if rng.random() < 0.4 and xf:                       # ... or the first training instance
+            xf[0] = [[float(round(v)) for v in s] for s in xf[0]]
+            df_[0] = ["i8"] + df_[0][1:]
+        if ent["kind"] == "reg":
+            y = [q(sum(inst[0]) / len(inst[0]) + 0.25 * (k % 3)) for k, inst in enumerate(xf)]
+        dts = {"xa": da, "xf": df_}
+        k0 = ints[0]
+        rest = [i for i in idxs if i != k0]
+        ins = len(vs) - (2 if not ragged and ent["refit"] else 1 if not ragged else 0)
+        vs[ins:ins] = [["sel", [k0] + rest], ["sel", rest + [k0]]]
     case = {"op": "meta", "est": key, "p": p, "meth": meth, "xf": xf, "y": y, "xa": xa, "base": base,
+            "dts": dts, "tix": tix,
             "keepidx": base == "N" and rng.random() < 0.5, "vars": vs, "valid": True, "layout": layout}
     if ent["kind"] == "clf" and rng.random() < 0.3:
         case["ykind"] = "str"
@@ -1524,6 +1664,7 @@ def gen_meta(rng, key, tier, malformed=None, p=None, ragged=None, layout=None):
         case["vars"] = [["sel", []], ["sel", [0]]]
     elif malformed == "multivariate" and ent["uni"] and not ent["mv"]:
         case["xa"] = [inst + [list(inst[0])] for inst in xa]
+        case["dts"] = None
         case["valid"] = False
         case["vars"] = [["sel", [0]], ["cont"]]
     return case
@@ -1546,8 +1687,10 @@ def gen_cases(tier, rng):
             # parameter sets are cycled (seed-rotated), ragged-capable estimators get a ragged panel every other case
             # and every estimator sees each memory layout of the 3-D container (seed-rotated)
             rag = (r % 2 == 0) and reg[k]["ragged"]
+            # the nested cells get mixed dtypes every other case and a non-default time index three times out of four
             cases.append(gen_meta(rng, k, tier, p=ps[(rot + r) % len(ps)], ragged=rag,
-                                  layout="C" if rag else LAYOUTS[1 + (rot + r) % 3] if r % 4 != 3 else "C"))
+                                  layout="C" if rag else LAYOUTS[1 + (rot + r) % 3] if r % 4 != 3 else "C",
+                                  mixed=((rot + r) % 2 == 1), tix=TIX[(rot + r + (r // 4)) % len(TIX)] if r % 4 != 0 else None))
     for k in slow:
         for _ in range(2 if tier == "quick" else 16):
             cases.append(gen_meta(rng, k, tier))
@@ -1597,8 +1740,10 @@ def compare(real, model):
     if "m" in f and "a" in f:
         return fuzzy_equal(f["a"], model)
     mf = _fields(model)
+    tol = float(f.get("tol", 1e-9))
+    skip = lambda k: k in ("B", "fit", "t", "w", "tol") or k.startswith("A")
     for k, v in f.items():
-        if k in ("B", "fit", "t", "w"):
+        if skip(k):
             continue
         if k not in mf:
             return False
@@ -1609,9 +1754,9 @@ def compare(real, model):
             continue                                        # both reject the variant; the kind is library detail
         if v.startswith("E:") or mf[k].startswith("E:") or len(rr) != len(mr):
             return False
-        if not all(m == "tie" or fuzzy_equal(r, m) for r, m in zip(rr, mr)):
+        if not all(m == "tie" or fuzzy_equal(r, m, tol) for r, m in zip(rr, mr)):
             return False                                    # "tie": label drawn by the random tie-break (known finding)
-    return len(mf) == len([k for k in f if k not in ("B", "fit", "t", "w")])
+    return len(mf) == len([k for k in f if not skip(k)])
 
 
 def nontrivial(case, out):
@@ -1631,6 +1776,7 @@ def features(case, out):
         return ["ens:" + case["est"]]
     fs = ["est:" + case["est"], "meth:" + case["meth"], "base:" + case["base"], "n_apply:%d" % len(case["xa"]),
           "layout:" + case.get("layout", "C"), "n_columns:%d" % (len(case["xa"][0]) if case["xa"] else 0),
+          "tix:" + case.get("tix", "default"), "dtypes:" + ("mixed" if case.get("dts") else "float64"),
           "batch:" + (f.get("b") or f.get("fit", "?"))]
     if not is_rect(case["xa"]):
         fs.append("ragged")
@@ -1662,4 +1808,13 @@ def shrink(case):
                 else:
                     nv.append(v)
             if ok:
-                yield dict(case, xa=[xa[i] for i in keep], vars=nv)
+                d2 = case.get("dts")
+                if d2:
+                    d2 = dict(d2, xa=[d2["xa"][i] for i in keep])
+                yield dict(case, xa=[xa[i] for i in keep], vars=nv, dts=d2)
+    if case.get("tix", "default") != "default":
+        yield dict(case, tix="default")
+    if case.get("dts"):
+        yield dict(case, dts=None)
+    if case.get("layout", "C") != "C":
+        yield dict(case, layout="C")
